@@ -791,6 +791,7 @@ pub fn run(cfg: &Cfg, rep: &mut Report) {
     rep.pin("F2c.empty_slice_in_bounds_2", pin_case(Root::Owned { w: 3, h: 3 }, &[Form::Excl(3, 2, 3, 3)], Op::Dims));
     rep.pin("F2c.empty_slice_in_bounds_3", pin_case(Root::Owned { w: 3, h: 3 }, &[Form::Excl(0, 3, 3, 3)], Op::Dims));
     rep.pin("F2d.rows_of_empty_buffer", pin_case(Root::Owned { w: 0, h: 0 }, &[], Op::Rows));
+    rep.pin("F12.inclusive_end_wraps_in_release", pin_case(Root::Owned { w: 0, h: 1 }, &[Form::Incl(0, 0, u32::MAX, 0)], Op::Dims));
     rep.pin("F11.row_index_truncated_to_u32", pin_case(Root::Owned { w: 2, h: 2 }, &[], Op::IndexRow(1usize << 32)));
 
     // Stream 0: exhaustive small
